@@ -332,4 +332,5 @@ func init() {
 	_ = Validate.RegisterValidation("certificateSigningUse16", isValidCertificateSigningUse)
 	_ = Validate.RegisterValidation("certificateUse16", isValidCertificateUse)
 	_ = Validate.RegisterValidation("genericStatus16", isValidGenericStatus)
+	_ = Validate.RegisterValidation("hashAlgorithm16", isValidHashAlgorithmType)
 }
